@@ -19,7 +19,7 @@ Theorem C11_table : ungated T_iocalls = [] /\ ungated T_fetch = []
                        && String.eqb (r_callee r) "close") T_iocalls = true
   /\ existsb (fun r => site_eqb (r_site r) SIoCall && String.eqb (r_encl r) "Workspace.close"
                        && String.eqb (r_callee r) "H5Writer.save_entity") T_iocalls = true.
-Proof. vm_compute. repeat split. Qed.
+Proof. vm_compute. split; [reflexivity|]. split; [reflexivity|]. split; reflexivity. Qed.
 Print Assumptions C11_table.
 
 (* for ALL with-blocks (any operations, including close/open/helpers inside the block), and an exception raised by the caller's
@@ -103,4 +103,6 @@ Example C11_nonvacuous :
                     "H5Writer.update_field"; "H5Writer.clear_stats_cache"; "H5Writer.save_entity"];
            locked := false; close_fault := false; repack := false; ncat := 1 |}, Some EInjected)
   /\ step (fst (with_block ops 2 w)) (Calls [rd]) = (fst (with_block ops 2 w), Some EClosed).
-Proof. cbv zeta. repeat split; vm_compute; reflexivity. Qed.
+Proof.
+  cbv zeta. split; [vm_compute; reflexivity|]. split; [vm_compute; reflexivity|]. split; vm_compute; reflexivity.
+Qed.
